@@ -688,6 +688,11 @@ def display_literals(prog, short):
                 a = fmtargs.arguments_of(x, t["args"][1])
                 if a:
                     out += [p[1] for p in a[0] if p[0] == "lit"]
+            if re.search(r"(\[T\]>|slice::<impl \[T\]>|Join<&str>>)::join$", nm) or nm.endswith("::join"):
+                for a2 in t["args"][1:]:
+                    v = G.describe(x, a2)
+                    if v.kind == "conststr":
+                        out.append(v.v)
     return out, b
 
 
@@ -938,6 +943,21 @@ def check_display_separators(ctx, rep):
                         continue
                 ok = True
                 form = fm
+        if not ok:
+            # `parts.join(sep)`: the separator sits between consecutive elements by construction; the joined parts must be the
+            # printed collection, element for element (a map over its iterator, collected)
+            for x in [b] + [prog.bodies[c] for c in prog.closures_of.get(b.id, [])]:
+                for bi, t in x.calls():
+                    nm = strip_generics(mir.callee_name(t) or "")
+                    if nm.endswith("::join") and len(t["args"]) > 1:
+                        sv = G.describe(x, t["args"][1])
+                        src = repr(G.describe(x, t["args"][0]))
+                        names = [strip_generics(mir.callee_name(tt) or "") for _b2, tt in x.calls()]
+                        cut = [nm2.split("::")[-1] for nm2 in names if re.search(r"Iterator(>|)::(filter|filter_map|take|skip|step_by|take_while|skip_while|rev|dedup)$", nm2)]
+                        fld = field or ".segments"
+                        if sv.kind == "conststr" and sv.v == sep and "collect" in src and fld in src and not cut:
+                            ok = True
+                            form = "by join(%r) over all elements" % sep
         if ok:
             rep.ok("T-SEP", key, b.where(), "%r written %s of the enumerated collection" % (sep, form))
         else:
